@@ -322,7 +322,14 @@ func checkNames(fd *descriptorpb.FileDescriptorProto, locs []*descriptorpb.Sourc
 		fields(path, 2, m.Field)
 		fields(path, 6, m.Extension)
 		for i, o := range m.OneofDecl {
-			check(append(append([]int32(nil), path...), 8, int32(i)), o.GetName(), strings.HasPrefix(o.GetName(), "_"))
+			// the synthetic oneof of a proto3 optional field has no location
+			synthetic := false
+			for _, f := range m.Field {
+				if f.OneofIndex != nil && int(f.GetOneofIndex()) == i && f.GetProto3Optional() {
+					synthetic = true
+				}
+			}
+			check(append(append([]int32(nil), path...), 8, int32(i)), o.GetName(), synthetic)
 		}
 		enums(path, 4, m.EnumType)
 		for i, n := range m.NestedType {
